@@ -169,7 +169,7 @@ class Outcome:
         ev = {"property_id": self.prop, "tier": self.tier, "seed": self.seed, "level": level, "coverage": cov,
               "assumptions": self.assumptions, "wall_s": round(time.time() - self.t0, 1),
               "violations": len(seen)}
-        (ev_dir / f"{self.prop}.json").write_text(json.dumps(ev, indent=1, ensure_ascii=True, default=list))
+        (ev_dir / f"{self.prop}{getattr(self, 'evidence_suffix', '')}.json").write_text(json.dumps(ev, indent=1, ensure_ascii=True, default=list))
         print(f"{self.prop} tier={self.tier} seed={self.seed}: states={self.states} transitions={self.transitions} "
               f"impl_records={self.traces} known_findings={len(self.known_hits)} violations={len(seen)} "
               f"wall={ev['wall_s']}s")
